@@ -742,12 +742,10 @@ impl Scratch {
         } else {
             std::env::temp_dir()
         };
-        let mut x = std::process::id() as u64 ^ 0x5eed;
-        let p = base.join(format!(
-            "verif-{tag}-{}-{:x}",
-            std::process::id(),
-            splitmix(&mut x) ^ (Instant::now().elapsed().as_nanos() as u64)
-        ));
+        static NEXT: std::sync::atomic::AtomicU64 = std::sync::atomic::AtomicU64::new(0);
+        let n = NEXT.fetch_add(1, std::sync::atomic::Ordering::Relaxed);
+        let p = base.join(format!("verif-{tag}-{}-{n}", std::process::id()));
+        let _ = fs::remove_dir_all(&p);
         fs::create_dir_all(&p).expect("scratch dir");
         Scratch(p)
     }
